@@ -26,6 +26,10 @@ struct OpRegistrar { OpRegistrar(const char* name, OpFn fn) { OpRegistry()[name]
 // the supervisor shows this string for a case that crashed / hung
 void SetStage(const char* stage);
 
+// per-case mode flags (reset by the supervisor before every case)
+extern bool g_relCopy;
+void ResetCaseFlags();
+
 // ---------------------------------------------------------------- tree automata
 typedef VATA::ExplicitTreeAut TA;
 
